@@ -28,14 +28,22 @@ func init() { register("C03", checkC03) }
 func specialKey(k string) bool { return k == "#text" || (strings.HasPrefix(k, "-") && len(k) > 1) }
 
 func genC03(t *rapid.T) CaseC03 {
-	g := VGen{Keys: xmlKeyNames, Attrs: true, Nulls: true}
-	c := CaseC03{Mode: rapid.SampledFrom([]string{"map-xml", "map-indent", "any", "any-indent", "j2x"}).Draw(t, "mode")}
+	// keys include the words the encoders use themselves (default root and element tags, explicit root tags)
+	g := VGen{Keys: append(append([]string{}, xmlKeyNames...), "doc", "element", "top", "myroot"), Attrs: true, Nulls: true}
+	c := CaseC03{Mode: rapid.SampledFrom([]string{"map-xml", "map-indent", "any", "any-indent", "j2x", "map-xml-root", "map-indent-root"}).Draw(t, "mode")}
 	c.GoEmpty = rapid.IntRange(0, 3).Draw(t, "goempty") == 0
 	c.PreFail = rapid.IntRange(0, 3).Draw(t, "prefail") == 0
 	blanks := []string{"", " ", "  ", "\t"}
 	c.Prefix = rapid.SampledFrom(blanks).Draw(t, "prefix")
 	c.Ind = rapid.SampledFrom(blanks).Draw(t, "ind")
 	switch c.Mode {
+	case "map-xml-root", "map-indent-root":
+		// an explicit root tag always wraps the whole Map, whatever its keys are
+		c.Value = g.Map(t, 3)
+		c.Tags = []string{rapid.SampledFrom([]string{"doc", "top", "a", "myroot"}).Draw(t, "roottag")}
+		if rapid.IntRange(0, 2).Draw(t, "samekey") == 0 {
+			c.Value = map[string]interface{}{c.Tags[0]: g.Value(t, 2)}
+		}
 	case "map-xml", "map-indent", "j2x":
 		m := g.Map(t, 3)
 		if len(m) == 1 {
@@ -137,6 +145,18 @@ func checkC03(c CaseC03, info *Info) *Failure {
 	var root *XElem
 	val := deepCopy(c.Value)
 	switch c.Mode {
+	case "map-xml-root", "map-indent-root":
+		m, ok := val.(map[string]interface{})
+		if !ok || len(c.Tags) != 1 {
+			info.Skip = "value is not a map"
+			return nil
+		}
+		root = refElems(c.Tags[0], m)[0]
+		if c.Mode == "map-xml-root" {
+			x, err = mxj.Map(m).Xml(c.Tags[0])
+		} else {
+			x, err = mxj.Map(m).XmlIndent(c.Prefix, c.Ind, c.Tags[0])
+		}
 	case "map-xml", "map-indent", "j2x":
 		m, ok := val.(map[string]interface{})
 		if !ok {
@@ -209,6 +229,7 @@ func checkC03(c CaseC03, info *Info) *Failure {
 	if err != nil {
 		return failf("encode-error", "mode %s value %s: %v", c.Mode, canon(c.Value), err)
 	}
+	disturb()
 	if werr := wellFormedSingleRoot(x); werr != nil {
 		return failf("not-well-formed", "mode %s value %s -> %q: %v", c.Mode, canon(c.Value), x, werr)
 	}
